@@ -458,20 +458,94 @@ Proof.
       rewrite Hskip, Hc, Hnext; f_equal; rewrite <- app_assoc; reflexivity.
 Qed.
 
-(* File source: literal pieces must be matched by scanf; for text without white space that is
-   character-by-character equality *)
+(* File source: literal pieces must be matched by scanf.  White space in a literal skips ALL white
+   space of the input, so a literal is matched exactly by its own text when it does not end in white
+   space, or when what follows it does not start with white space. *)
+Definition lws (x : text) : text := fst (skip_ws x 0).
+
+Definition head_nonspace (x : text) : Prop :=
+  match x with [] => True | c :: _ => is_space c = false end.
+
+Fixpoint ends_nonspace (t : text) : Prop :=
+  match t with
+  | [] => True
+  | c :: r => match r with [] => is_space c = false | _ => ends_nonspace r end
+  end.
+
+Definition lit_ok (t after : text) : Prop := ends_nonspace t \/ head_nonspace after.
+
+Lemma skip_ws_fst : forall x n m, fst (skip_ws x n) = fst (skip_ws x m).
+Proof.
+  induction x as [|c r IH]; intros n m; [reflexivity|]. simpl. destruct (is_space c); [apply IH|reflexivity].
+Qed.
+
+Lemma lws_cons_space : forall c r, is_space c = true -> lws (c :: r) = lws r.
+Proof. intros c r H. unfold lws. simpl. rewrite H. apply skip_ws_fst. Qed.
+
+Lemma lws_nonspace : forall x, head_nonspace x -> lws x = x.
+Proof. intros [|c r] H; [reflexivity|]. unfold lws. simpl in *. now rewrite H. Qed.
+
+Lemma lws_idem : forall x, lws (lws x) = lws x.
+Proof.
+  induction x as [|c r IH]; [reflexivity|]. destruct (is_space c) eqn:E.
+  - rewrite (lws_cons_space c r E). exact IH.
+  - rewrite (lws_nonspace (c :: r)) by exact E. apply lws_nonspace. exact E.
+Qed.
+
+Lemma match_lit_own_text : forall t inp, lit_ok t inp ->
+  match_lit t (t ++ inp) = inp /\
+  (match t with c :: _ => is_space c = true | [] => False end -> match_lit t (lws (t ++ inp)) = inp).
+Proof.
+  induction t as [|c r IH]; intros inp Hok.
+  - split; [reflexivity|intros []].
+  - assert (Hok' : lit_ok r inp).
+    { destruct Hok as [H|H]; [|now right]. destruct r as [|d r']; [left; exact I|left; exact H]. }
+    destruct (IH inp Hok') as [IH1 IH2].
+    cbn [match_lit app]. destruct (is_space c) eqn:Ec.
+    + (* white space in the literal: all white space of the input goes *)
+      assert (Hcore : match_lit r (lws (r ++ inp)) = inp).
+      { destruct r as [|d r'].
+        - cbn [app match_lit]. destruct Hok as [H|H]; [simpl in H; congruence|]. now apply lws_nonspace.
+        - destruct (is_space d) eqn:Ed.
+          + apply IH2. reflexivity.
+          + rewrite lws_nonspace by (cbn [app]; exact Ed). exact IH1. }
+      split.
+      * fold (lws (c :: r ++ inp)). rewrite (lws_cons_space c _ Ec). exact Hcore.
+      * intros _. cbn [app]. try rewrite (lws_cons_space c _ Ec).
+        change (match_lit r (lws (lws (r ++ inp))) = inp). rewrite lws_idem. exact Hcore.
+    + split; [|intros H; congruence]. rewrite N.eqb_refl. exact IH1.
+Qed.
+
+Lemma match_lit_ok : forall t inp, lit_ok t inp -> match_lit t (t ++ inp) = inp.
+Proof. intros t inp H. apply (match_lit_own_text t inp H). Qed.
+
 Definition lit_plain (t : text) : Prop := Forall (fun c => is_space c = false) t.
 
-Lemma match_lit_plain : forall t inp, lit_plain t -> match_lit t (t ++ inp) = inp.
+Lemma lit_plain_ends : forall t, lit_plain t -> ends_nonspace t.
 Proof.
-  induction t as [|c r IH]; intros inp H; [reflexivity|].
-  inversion H as [|? ? Hc Hr]; subst. cbn [match_lit app]. rewrite Hc, N.eqb_refl. now apply IH.
+  induction t as [|c r IH]; intros H; [exact I|]. inversion H as [|? ? Hc Hr]; subst.
+  destruct r as [|d r']; [exact Hc|]. cbn [ends_nonspace]. apply IH. exact Hr.
 Qed.
+
+(* every literal of the sequence is matched by its own text, given what is written after it *)
+Fixpoint lits_ok (cf : config) (its : list pitem) (rest : text) : Prop :=
+  match its with
+  | [] => True
+  | PLit t :: r => lit_ok t (print_items cf r ++ rest) /\ lits_ok cf r rest
+  | _ :: r => lits_ok cf r rest
+  end.
 
 Definition lits_plain (its : list pitem) : Prop :=
   Forall (fun it => match it with PLit t => lit_plain t | _ => True end) its.
 
-Lemma scan_file_seq : forall cf its rest sits vs, seq_reads cf its rest sits vs -> lits_plain its ->
+Lemma lits_plain_ok : forall cf its rest, lits_plain its -> lits_ok cf its rest.
+Proof.
+  intros cf its rest. induction its as [|it its IH]; intros H; [exact I|].
+  inversion H as [|? ? Hi Hr]; subst. destruct it as [t | v | sp v]; cbn [lits_ok]; auto.
+  split; [left; now apply lit_plain_ends | auto].
+Qed.
+
+Lemma scan_file_seq : forall cf its rest sits vs, seq_reads cf its rest sits vs -> lits_ok cf its rest ->
   forall pos acc,
   scan_file cf (print_items cf its ++ rest) pos sits acc
   = SOk (acc ++ vs) (pos + length (print_items cf its)).
@@ -479,11 +553,12 @@ Proof.
   intros cf its rest sits vs H. induction H as [rest | t its rest sits vs H IH | it si its rest sits v vs Hs Hc H IH];
     intros Hl pos acc.
   - simpl. rewrite app_nil_r. f_equal. lia.
-  - inversion Hl as [|? ? Ht Hl']; subst.
+  - cbn [lits_ok] in Hl. destruct Hl as [Ht Hl'].
     cbn [scan_file print_items flat_map print_item]. rewrite <- app_assoc.
-    rewrite match_lit_plain by assumption. fold (print_items cf its).
+    fold (print_items cf its). rewrite match_lit_ok by assumption.
     rewrite IH by assumption. f_equal. unfold print_items. rewrite app_length. lia.
-  - inversion Hl as [|? ? Ht Hl']; subst.
+  - assert (Hl' : lits_ok cf its rest).
+    { destruct it as [t | v0 | sp v0]; cbn [lits_ok] in Hl; [destruct Hl as [_ Hl]|..]; exact Hl. }
     assert (Hnext : forall acc', scan_file cf (skipn (length (print_item cf it)) (print_items cf (it :: its) ++ rest))
                       (pos + length (print_item cf it)) sits acc'
                     = SOk (acc' ++ vs) (pos + length (print_items cf (it :: its)))).
@@ -558,7 +633,7 @@ Qed.
 
 (* ... and from a File (the stream stands just after the bytes written before) *)
 Theorem show_seq_roundtrip_file : forall cf its old rest, config_ok cf -> show_seq_ok cf its rest ->
-  lits_plain its ->
+  lits_ok cf its rest ->
   scan_file cf (skipn (length old) (fst (print_to_file cf old (length old) its) ++ rest)) (length old)
     (map sitem_of its) []
   = SOk (values_of its) (snd (print_to_file cf old (length old) its)).
